@@ -19,6 +19,7 @@ import json
 import os
 import re
 import threading
+import time
 import vlib
 from vlib import Ctx, run_tlc, build_harness, parse_jsonl, SPEC
 
@@ -155,6 +156,27 @@ def run(tier, replay):
             "tokio": os.path.join(build_harness(["shutdown"], tokio=True), "shutdown")}
     seed = vlib.seed()
 
+    if replay:
+        # re-run the scenario of a replay file on the real code and let TLC judge its log again
+        case = json.load(open(replay)).get("case", {})
+        sc = case.get("scenario")
+        if not sc or sc.get("rt") not in bins:
+            raise vlib.ToolError("replay file has no scenario to run: %s" % replay)
+        outs = run_harness(bins[sc["rt"]], ["script"], json.dumps(sc) + "\n")
+        for o in outs:
+            o["group"] = "replay-file"
+        acc, rej = validate(ctx, outs, "replay-file")
+        ctx.cov["evaluations"] = len(outs)
+        ctx.cov["traces_validated_against_impl"] = acc
+        ctx.cov["distinct_nontrivial"] = len(outs)
+        ctx.cov["rule"] = "re-execution of the scenario stored in the replay file"
+        for o in outs:
+            ctx.sample({"scenario": o["scenario"], "verdict": o["verdict"], "log": brief(o["events"])[:900]})
+        for o, info in rej:
+            ctx.violation("replayed scenario %s rejected by TLC at record %s %s" % (o["scenario"], info.get("record_in_scenario"), json.dumps(info.get("event") or info.get("invariant"))),
+                          {"kind": "c20-trace", "scenario": {k: o[k] for k in o if k != "events"}, "events": o["events"], "tlc": info})
+        return ctx.finish()
+
     # ---------------------------------------------------------------- 1. TLC jobs run beside the harness work
     pool = cf.ThreadPoolExecutor(max_workers=3)
     jobs = {}
@@ -208,34 +230,46 @@ def run(tier, replay):
 
     total_scen, total_acc, nontrivial = 0, 0, set()
     max_wait, max_ms = 0, 0
+    everything = []
     for (kind, rt), outs in sorted(groups.items()):
         for o in outs:
             if o.get("tool_error"):
                 raise vlib.ToolError("scenario %s: %s %s" % (o.get("scenario"), o["tool_error"], o.get("problems")))
-        acc, rej = validate(ctx, outs, "%s-%s" % (kind, rt))
-        total_scen += len(outs)
+            o["group"] = "%s/%s" % (kind, rt)
+            everything.append(o)
+    vlib.log("[C20] %d scenarios executed on the real code (%.0fs); validating the logs with TLC" % (len(everything), time.time() - ctx.t0))
+    # all logs in one TLC run (Reset records between scenarios); the thorough tier validates group by group
+    batches = [everything] if not thorough else [outs for _, outs in sorted(groups.items())]
+    rej_all = []
+    for batch in batches:
+        acc, rej = validate(ctx, batch, batch[0]["group"] if thorough else "all groups")
         total_acc += acc
-        for o in outs:
-            v = o["verdict"]
-            max_wait = max(max_wait, v.get("wait_level", 0))
-            max_ms = max(max_ms, v.get("sig_to_return_ms", 0))
-            evs = [e["ev"] for e in o["events"]]
-            # non-trivial: at least one connection was being served or waiting when the signal was sent
-            if "Sig_Send" in evs and any(e in evs[:evs.index("Sig_Send")] for e in ("Accept_Return", "Cli_Connect")):
-                nontrivial.add(json.dumps([o["rt"], o["nw"], o["bind"], o["steps"]], sort_keys=True))
-            if kind == "replay":
-                for p in o.get("problems", []):
-                    if p.startswith("gated step expected"):
-                        ctx.violation("replay of a TLC behaviour: %s (%s)" % (p, o["scenario"]),
-                                      {"kind": "c20-gated-replay", "scenario": {k: o[k] for k in o if k != "events"}, "log": brief(o["events"])})
-        for o, info in rej:
-            what = ("%s/%s scenario %s: the recorded execution is not a behaviour of Shutdown.tla - TLC stops at record %s %s; "
-                    "verdict fields of the harness: %s; problems: %s"
-                    % (kind, rt, o["scenario"], info.get("record_in_scenario"), json.dumps(info.get("event") or info.get("invariant")),
-                       json.dumps(o["verdict"]), o.get("problems")))
-            ctx.violation(what, {"kind": "c20-trace", "scenario": {k: o[k] for k in o if k != "events"}, "events": o["events"], "tlc": info})
-        ctx.add_part("%s %s" % (kind, rt), scenarios=len(outs), accepted_by_tlc=acc, rejected=len(rej),
-                     hangs=sum(1 for o in outs if o.get("hang")))
+        rej_all += rej
+    total_scen = len(everything)
+    for o in everything:
+        v = o["verdict"]
+        max_wait = max(max_wait, v.get("wait_level", 0))
+        max_ms = max(max_ms, v.get("sig_to_return_ms", 0))
+        evs = [e["ev"] for e in o["events"]]
+        # non-trivial: at least one connection existed when the signal was sent
+        if "Sig_Send" in evs and any(e in evs[:evs.index("Sig_Send")] for e in ("Accept_Return", "Cli_Connect")):
+            nontrivial.add(json.dumps([o["rt"], o["nw"], o["bind"], o["steps"]], sort_keys=True))
+        if o["group"].startswith("replay"):
+            for p in o.get("problems", []):
+                if p.startswith("gated step expected"):
+                    ctx.violation("replay of a TLC behaviour: %s (%s)" % (p, o["scenario"]),
+                                  {"kind": "c20-gated-replay", "scenario": {k: o[k] for k in o if k != "events"}, "log": brief(o["events"])})
+    for o, info in rej_all:
+        what = ("%s scenario %s: the recorded execution is not a behaviour of Shutdown.tla - TLC stops at record %s %s; "
+                "verdict fields of the harness: %s; problems: %s"
+                % (o["group"], o["scenario"], info.get("record_in_scenario"), json.dumps(info.get("event") or info.get("invariant")),
+                   json.dumps(o["verdict"]), o.get("problems")))
+        ctx.violation(what, {"kind": "c20-trace", "scenario": {k: o[k] for k in o if k != "events"}, "events": o["events"], "tlc": info})
+    for (kind, rt), outs in sorted(groups.items()):
+        ctx.add_part("%s %s" % (kind, rt), scenarios=len(outs),
+                     rejected_by_tlc=sum(1 for o, _ in rej_all if o["group"] == "%s/%s" % (kind, rt)),
+                     hangs=sum(1 for o in outs if o.get("hang")),
+                     timed_waits=sum(1 for o in outs if o["verdict"].get("wait_level", 0) > 0))
     for o in (groups[("races", "threaded")][:2] + groups[("matrix", "tokio")][1:2] + groups[("replay", "threaded")][:1]):
         ctx.sample({"scenario": o["scenario"], "rt": o["rt"], "pool": o["nw"], "bind": o["bind"], "verdict": o["verdict"], "log": brief(o["events"])[:900]})
 
@@ -259,12 +293,14 @@ def run(tier, replay):
         ("tokio: run did not return", mutate(base_t, lambda ev: [e for e in ev if e["ev"] not in ("Run_Return", "Rebind", "Obs_Closed")])),
     ]
     caught = 0
-    for name, m in muts:
-        ok, info, r = tlc_trace(prep([m])[0], "selftest")
-        ctx.add_tlc("self-test: corrupted log (%s) must be rejected" % name, r)
-        if ok:
-            raise vlib.ToolError("self-test failed: corrupted log accepted (%s)" % name)
-        caught += 1
+    with cf.ThreadPoolExecutor(max_workers=4) as tp:
+        futs = [(name, tp.submit(tlc_trace, prep([m])[0], "selftest", 300)) for name, m in muts]
+        for name, f in futs:
+            ok, info, r = f.result()
+            ctx.add_tlc("self-test: corrupted log (%s) must be rejected" % name, r)
+            if ok:
+                raise vlib.ToolError("self-test failed: corrupted log accepted (%s)" % name)
+            caught += 1
     ctx.add_part("self-test", corrupted_logs=len(muts), rejected=caught)
 
     # ---------------------------------------------------------------- collect the TLC jobs
@@ -273,7 +309,7 @@ def run(tier, replay):
         if kind == "mc":
             ctx.add_tlc("Shutdown.tla Dev={} %s (%s)" % (cfg, x), r)
             ctx.require_tlc_ok(cfg, r)
-            if r.violation is None:
+            if r.violation is None and "allfair" not in cfg:
                 ctx.require_cover(cfg, r, ACTIONS)
         elif kind == "sens":
             want = next(s for s in SENS if s[0] == cfg)
